@@ -44,6 +44,12 @@ const MAX_BINARY_SIZE: usize = 100_000_000;
 
 type NomResult<'a, T> = IResult<&'a [u8], T, NomError<&'a [u8]>>;
 
+/// Capacity to reserve for `count` elements announced by the input: every element takes at
+/// least one byte, so there can never be more elements than bytes left.
+fn bounded_capacity(count: usize, remaining_input: &[u8]) -> usize {
+    count.min(remaining_input.len())
+}
+
 const ATOM_CACHE_SIZE: usize = 256;
 
 #[derive(Debug, Clone)]
@@ -593,7 +599,7 @@ fn parse_large_tuple<'a>(input: &'a [u8], cache: &AtomCache) -> NomResult<'a, Ow
         return Err(nom::Err::Failure(NomError::new(input, ErrorKind::TooLarge)));
     }
     let mut remaining = input;
-    let mut elements = Vec::with_capacity(arity as usize);
+    let mut elements = Vec::with_capacity(bounded_capacity(arity as usize, input));
 
     for _ in 0..arity {
         let (new_remaining, term) = parse_term(remaining, cache)?;
@@ -620,7 +626,7 @@ fn parse_list<'a>(input: &'a [u8], cache: &AtomCache) -> NomResult<'a, OwnedTerm
         return Err(nom::Err::Failure(NomError::new(input, ErrorKind::TooLarge)));
     }
     let mut remaining = input;
-    let mut elements = Vec::with_capacity(len as usize);
+    let mut elements = Vec::with_capacity(bounded_capacity(len as usize, input));
 
     for _ in 0..len {
         let (new_remaining, term) = parse_term(remaining, cache)?;
@@ -828,7 +834,7 @@ fn parse_new_fun_ext<'a>(input: &'a [u8], cache: &AtomCache) -> NomResult<'a, Ow
     };
 
     let mut remaining = input;
-    let mut free_vars = Vec::with_capacity(num_free as usize);
+    let mut free_vars = Vec::with_capacity(bounded_capacity(num_free as usize, input));
     for _ in 0..num_free {
         let (new_remaining, term) = parse_term(remaining, cache)?;
         free_vars.push(term);
@@ -1004,7 +1010,7 @@ fn parse_large_tuple_borrowed<'a>(
         return Err(nom::Err::Failure(NomError::new(input, ErrorKind::TooLarge)));
     }
     let mut remaining = input;
-    let mut elements = Vec::with_capacity(arity as usize);
+    let mut elements = Vec::with_capacity(bounded_capacity(arity as usize, input));
 
     for i in 0..arity {
         ctx.push(PathSegment::TupleElement(i as usize));
@@ -1037,7 +1043,7 @@ fn parse_list_borrowed<'a>(
         return Err(nom::Err::Failure(NomError::new(input, ErrorKind::TooLarge)));
     }
     let mut remaining = input;
-    let mut elements = Vec::with_capacity(len as usize);
+    let mut elements = Vec::with_capacity(bounded_capacity(len as usize, input));
 
     for i in 0..len {
         ctx.push(PathSegment::ListElement(i as usize));
@@ -1282,7 +1288,7 @@ fn parse_new_fun_ext_borrowed<'a>(
     };
 
     let mut remaining = input;
-    let mut free_vars = Vec::with_capacity(num_free as usize);
+    let mut free_vars = Vec::with_capacity(bounded_capacity(num_free as usize, input));
     for i in 0..num_free {
         ctx.push(PathSegment::FunFreeVar(i as usize));
         let (new_remaining, term) = parse_term_borrowed(remaining, original_len, ctx)?;
